@@ -43,6 +43,14 @@ func through(p *core.Program, o operand, depth int) (operand, map[*types.Var]ope
 		if ret == nil || callee.Decl == nil || c.Ellipsis.IsValid() {
 			break
 		}
+		// the receiver of a method helper is bound to the call's receiver expression
+		if callee.Decl.Recv != nil && len(callee.Decl.Recv.List) == 1 && len(callee.Decl.Recv.List[0].Names) == 1 {
+			if rv, ok := callee.Info().ObjectOf(callee.Decl.Recv.List[0].Names[0]).(*types.Var); ok {
+				if sel, isSel := ast.Unparen(c.Fun).(*ast.SelectorExpr); isSel {
+					subst[rv] = applySubst(operand{o.F, sel.X}, subst)
+				}
+			}
+		}
 		i := 0
 		for _, fld := range callee.Decl.Type.Params.List {
 			for _, n := range fld.Names {
@@ -58,9 +66,26 @@ func through(p *core.Program, o operand, depth int) (operand, map[*types.Var]ope
 }
 
 func applySubst(o operand, subst map[*types.Var]operand) operand {
-	if v := core.VarOf(o.F.Info(), o.E); v != nil {
+	info := o.F.Info()
+	if v := core.VarOf(info, o.E); v != nil {
 		if s, ok := subst[v]; ok {
 			return s
+		}
+	}
+	// x.F with x substituted: a selector in the caller's terms. The new node shares the field
+	// identifier; its selection is registered so that FieldOf / TypeOf keep working.
+	if sel, ok := ast.Unparen(o.E).(*ast.SelectorExpr); ok {
+		if v := core.VarOf(info, sel.X); v != nil {
+			if s, ok := subst[v]; ok {
+				n := &ast.SelectorExpr{X: s.E, Sel: sel.Sel}
+				if selection, ok := info.Selections[sel]; ok {
+					info.Selections[n] = selection
+				}
+				if tv, ok := info.Types[sel]; ok {
+					info.Types[n] = tv
+				}
+				return operand{s.F, n}
+			}
 		}
 	}
 	return o
